@@ -131,12 +131,21 @@ def planted_cases(draw):
     alg = draw(st.sampled_from(ALGS))
     C = draw(st.sampled_from([10, 12, 30, 60, 100, 101, 1000, 1200]))
     m = draw(st.integers(2, 120))
-    style = draw(st.sampled_from(["mixed", "pairs+fill", "triples", "many-small", "thirds+halves"]))
+    style = draw(st.sampled_from(["mixed", "pairs+fill", "triples", "many-small", "thirds+halves", "just-below-half+unit"]))
+    if style == "just-below-half+unit":
+        # every bin is two items of the largest value below half the bin plus the unit(s) that complete it - on an ODD bin size that is
+        # exactly (binsize-1)/2, the value a floor instead of a ceiling in a class threshold misplaces; many bins, so that the additive
+        # slack of the guarantees is used up
+        C = draw(st.sampled_from([13, 31, 101, 201, 1001, 60, 1000]))
+        m = draw(st.integers(40, 120))
     if style == "thirds+halves":
         C = draw(st.sampled_from([12, 30, 60, 120, 1200]))         # divisible by 2 and 3: items of exactly a third / a half of the bin
     parts = []
     for _ in range(m):
-        if style == "pairs+fill":          # two items just below half the bin and small fillers
+        if style == "just-below-half+unit":
+            h = (C - 1) // 2
+            parts += [h, h] + [1] * (C - 2 * h)
+        elif style == "pairs+fill":          # two items just below half the bin and small fillers
             a = draw(st.integers(max(1, C // 2 - max(1, C // 20)), max(1, (C - 1) // 2)))
             rest = C - 2 * a
             parts += [a, a] + ([1] * rest if rest <= 6 else [rest // 2, rest - rest // 2])
